@@ -1,6 +1,7 @@
 package main
 
 import (
+	"go/token"
 	"go/types"
 	"sort"
 
@@ -403,4 +404,99 @@ func (c *Ctx) deepOrigins(v ssa.Value) []ssa.Value {
 	}
 	walk(v, 0)
 	return out
+}
+
+// existenceEdges: the conditional edges of fn on which a probe of a record key
+// accepted by matchKey is known to have found (exists) or not found (absent) a
+// record. A probe is Tx.Get(k) tested against nil, or a static call to a
+// library helper that passes its parameter to Tx.Get and returns the outcome
+// of that nil test as a boolean (`return value != nil, err`).
+func (c *Ctx) existenceEdges(fn *ssa.Function, matchKey func(k ssa.Value) bool) (exists, absent []edge) {
+	allCalls(fn, func(ci ssa.CallInstruction) {
+		call, ok := ci.(*ssa.Call)
+		if !ok {
+			return
+		}
+		if c.isInvokeOf(call, "store", "Tx", "Get") {
+			if !matchKey(call.Common().Args[0]) {
+				return
+			}
+			for _, v := range resultValues(call, 0) {
+				exists = append(exists, nonNilEdges(fn, sameValue(v))...)
+				absent = append(absent, nilEdges(fn, sameValue(v))...)
+			}
+			return
+		}
+		g := staticCallee(call)
+		if g == nil || !c.IsLib(c.declared(g)) {
+			return
+		}
+		g = c.declared(g)
+		// which parameter is probed, which result reports it, and with which polarity
+		for ri := 0; ri < g.Signature.Results().Len(); ri++ {
+			if bt, ok := g.Signature.Results().At(ri).Type().Underlying().(*types.Basic); !ok || bt.Kind() != types.Bool {
+				continue
+			}
+			pi, trueMeansExists, found := -1, false, false
+			for _, ret := range returnsOf(g) {
+				rv, ok := returnedValue(ret, ri)
+				if !ok {
+					continue
+				}
+				for _, og := range origins(rv) {
+					x, tnil, ok := nilTest(og)
+					if !ok {
+						continue
+					}
+					for _, xo := range origins(x) {
+						ex, ok := xo.(*ssa.Extract)
+						if !ok {
+							continue
+						}
+						gc, ok := ex.Tuple.(*ssa.Call)
+						if !ok || !c.isInvokeOf(gc, "store", "Tx", "Get") {
+							continue
+						}
+						for _, ko := range origins(stripConv(gc.Common().Args[0])) {
+							if p, ok := stripConv(ko).(*ssa.Parameter); ok {
+								pi, trueMeansExists, found = paramIndex(g, p), !tnil, true
+							}
+						}
+					}
+				}
+			}
+			if !found || pi < 0 || pi >= len(call.Common().Args) || !matchKey(call.Common().Args[pi]) {
+				continue
+			}
+			var vals []ssa.Value
+			if g.Signature.Results().Len() == 1 {
+				vals = []ssa.Value{call}
+			} else {
+				for _, e := range extractsOf(call, ri) {
+					vals = append(vals, e)
+				}
+			}
+			ifEdges(fn, func(cond ssa.Value, e edge) {
+				neg := false
+				for {
+					if u, ok := cond.(*ssa.UnOp); ok && u.Op == token.NOT {
+						cond, neg = u.X, !neg
+						continue
+					}
+					break
+				}
+				for _, v := range vals {
+					if cond == v {
+						val := e.Branch != neg
+						if val == trueMeansExists {
+							exists = append(exists, e)
+						} else {
+							absent = append(absent, e)
+						}
+					}
+				}
+			})
+		}
+	})
+	return
 }
